@@ -68,7 +68,45 @@ type Case struct {
 	// CloseEvery k > 0 (http, http/scenario): the target answers every k-th request with `Connection: close` and drops the
 	// connection, so the instance that shoots next on that client dials again while the others are shooting.
 	CloseEvery int `json:"target_closes_connection_every,omitempty"`
+	// AnswLog: the gun option `answlog` (docs: "answlog: enabled / path / filter"). "" = not named (disabled, the default);
+	// "own" = `enabled: true` with a `path` of the pool's own in the working directory; "default" = `enabled: true` without a
+	// path: the default file `answ.log` in the working directory, which all such pools of one engine name. The http guns make
+	// their logger once, when the gun section is decoded - one logger for all instances; the grpc guns make theirs in the gun
+	// constructor: on the goroutine of the pool (the warm-up gun) and on the goroutine of every instance.
+	AnswLog string `json:"answlog,omitempty"`
+	// AnswFilter: `filter` of the answ log ("" = not named, the default is all): all | warning | error. The target never answers
+	// with a code of 400 or more, so only `all` (and "") writes while the instances shoot.
+	AnswFilter string `json:"answlog_filter,omitempty"`
+	// Siblings: further pools of the SAME engine (engine.Config.Pools: this pool first, then these), each a complete pool
+	// description of its own - own gun, provider, target, aggregator file, schedules. The engine runs every pool on a goroutine
+	// of its own: the pools warm their guns up, start their instances and make the instances' guns side by side, so whatever
+	// the component constructors and the components share process-wide is reached from several pools at once.
+	Siblings []Case `json:"sibling_pools,omitempty"`
 }
+
+const (
+	answOwn     = "own"
+	answDefault = "default"
+)
+
+// pools: the pools of the engine, this one (without its siblings) first.
+func (c Case) pools() []Case {
+	main := c
+	main.Siblings = nil
+	return append([]Case{main}, c.Siblings...)
+}
+
+func poolID(i int) string {
+	if i == 0 {
+		return "p"
+	}
+	return fmt.Sprintf("p%d", i)
+}
+
+func (c Case) grpcGun() bool { return c.Kind == kindGRPC || c.Kind == kindGRPCScen }
+
+// answWrites: the gun writes into its answ log while it shoots.
+func (c Case) answWrites() bool { return c.AnswLog != "" && (c.AnswFilter == "" || c.AnswFilter == "all") }
 
 func (c Case) httpGun() bool { return c.Kind == kindHTTP || c.Kind == kindHTTPScen }
 
@@ -285,6 +323,13 @@ func (c Case) sharedObjects() []string {
 	out := []string{"provider_queue", "aggregator_" + c.Agg}
 	if c.SharedClients > 0 {
 		out = append(out, "shared_client_"+c.Kind)
+	}
+	if c.AnswLog != "" {
+		// http guns: one logger (one file) for all instances of the pool; grpc guns: one per gun, made by the gun constructor
+		out = append(out, "answlog", "answlog_"+c.Kind, "answlog_file_"+c.AnswLog)
+		if c.answWrites() {
+			out = append(out, "answlog_written_while_shooting")
+		}
 	}
 	if c.httpGun() {
 		by := map[string]string{targetByIP: "ip", targetByName: "host_name_reachable_at_decode", targetByNameLate: "host_name_unreachable_at_decode"}[c.TargetBy]
@@ -705,11 +750,43 @@ func (s *Scen) normalize(grpc bool) {
 
 // genCase draws a case; r (may be nil) tells which findings are listed as known.
 func genCase(t *rapid.T, r *vf.Run) Case {
+	c := genPool(t, r, nil)
+	// further pools of the same engine (drawn last: the draws above keep their meaning for a given seed): 3 cases of 10 are
+	// engines of 2-4 pools. A sibling is a whole pool of its own - any kind, any of the options above except the storm of
+	// discarded shots, 2-6 instances - in half of the draws of the kind of the first pool.
+	if rapid.IntRange(0, 9).Draw(t, "multiPool") < 2 {
+		n := rapid.IntRange(1, 3).Draw(t, "siblingPools")
+		for i := 0; i < n; i++ {
+			c.Siblings = append(c.Siblings, genPool(t, r, &c))
+		}
+	}
+	return c
+}
+
+var allKinds = []string{kindHTTP, kindHTTP, kindHTTPScen, kindHTTPScen, kindHTTPScen, kindGRPC, kindGRPCScen, kindGRPCScen, kindGRPCScen}
+
+// siblingKinds: the four kinds evenly (the guns whose constructor does work of its own - grpc, grpc/scenario - first).
+var siblingKinds = []string{kindGRPC, kindGRPCScen, kindHTTP, kindHTTPScen}
+
+// genPool draws one pool: the first one of the engine (first == nil) or a sibling of `first`.
+func genPool(t *rapid.T, r *vf.Run, first *Case) Case {
 	c := Case{}
-	c.Kind = rapid.SampledFrom([]string{kindHTTP, kindHTTP, kindHTTPScen, kindHTTPScen, kindHTTPScen, kindGRPC, kindGRPCScen, kindGRPCScen, kindGRPCScen}).Draw(t, "kind")
-	c.Instances = rapid.IntRange(2, 16).Draw(t, "instances")
-	per := rapid.IntRange(2, 6).Draw(t, "shotsPerInstance")
-	c.Shots = min(c.Instances*per, 72)
+	sibling := first != nil
+	if sibling && rapid.Bool().Draw(t, "siblingOfSameKind") {
+		c.Kind = first.Kind
+	} else if sibling {
+		c.Kind = rapid.SampledFrom(siblingKinds).Draw(t, "kind")
+	} else {
+		c.Kind = rapid.SampledFrom(allKinds).Draw(t, "kind")
+	}
+	if sibling {
+		c.Instances = rapid.IntRange(2, 6).Draw(t, "instances")
+		c.Shots = min(c.Instances*rapid.IntRange(2, 4).Draw(t, "shotsPerInstance"), 24)
+	} else {
+		c.Instances = rapid.IntRange(2, 16).Draw(t, "instances")
+		per := rapid.IntRange(2, 6).Draw(t, "shotsPerInstance")
+		c.Shots = min(c.Instances*per, 72)
+	}
 	c.Agg = rapid.SampledFrom([]string{"phout", "jsonlines"}).Draw(t, "aggregator")
 	c.DelayUs = rapid.SampledFrom([]int{0, 300, 1000, 2500}).Draw(t, "delayUs")
 	if c.Kind != kindGRPCScen && rapid.Bool().Draw(t, "sharedClient") { // the grpc/scenario gun has no shared-client option
@@ -759,7 +836,7 @@ func genCase(t *rapid.T, r *vf.Run) Case {
 	if c.Agg == "phout" {
 		c.QueueSize = rapid.SampledFrom([]int{0, 0, 0, 1, 2, 16}).Draw(t, "phoutQueue")
 	}
-	if rapid.IntRange(0, 9).Draw(t, "discardStorm") == 8 {
+	if !sibling && rapid.IntRange(0, 9).Draw(t, "discardStorm") == 8 {
 		// (rapid's IntRange favours small values and the bounds: 8 comes up in 6-7 draws of 100; a storm costs 1-1.5 s per round)
 		genStorm(t, &c)
 	} else if rapid.IntRange(0, 9).Draw(t, "rpsBehind") < behind {
@@ -788,6 +865,20 @@ func genCase(t *rapid.T, r *vf.Run) Case {
 		}
 		c.NoKeepAlive = rapid.IntRange(0, 9).Draw(t, "noKeepAlive") < 3
 		c.CloseEvery = rapid.SampledFrom([]int{0, 0, 0, 1, 2, 3, 5}).Draw(t, "closeEvery")
+	}
+	// the gun's answ log (drawn last): 4 pools of 10, 6 of 10 in the siblings of an engine of several pools; the pool's own
+	// file or (1 of 3) the default one, which such pools of one engine share; the filter not named / all (2 of 3) or warning / error
+	answ := 4
+	if sibling {
+		answ = 6
+	}
+	if rapid.IntRange(0, 9).Draw(t, "answLog") < answ {
+		files := []string{answOwn, answOwn, answDefault}
+		if sibling {
+			files = []string{answDefault, answOwn, answOwn}
+		}
+		c.AnswLog = rapid.SampledFrom(files).Draw(t, "answLogFile")
+		c.AnswFilter = rapid.SampledFrom([]string{"", "all", "all", "all", "warning", "error"}).Draw(t, "answLogFilter")
 	}
 	steer(&c, r)
 	return c
@@ -828,6 +919,23 @@ func contains(l []string, v string) bool {
 }
 
 func (c Case) validate() error {
+	if len(c.Siblings) > 7 {
+		return fmt.Errorf("engines of 1..8 pools are defined")
+	}
+	for i, sc := range c.Siblings {
+		if len(sc.Siblings) > 0 || sc.storm() {
+			return fmt.Errorf("sibling pool %d: a sibling has no siblings of its own and is no storm of discarded shots", i+1)
+		}
+		if err := sc.validate(); err != nil {
+			return fmt.Errorf("sibling pool %d: %v", i+1, err)
+		}
+	}
+	if c.AnswLog != "" && c.AnswLog != answOwn && c.AnswLog != answDefault {
+		return fmt.Errorf("answlog is \"\" (disabled), %q or %q", answOwn, answDefault)
+	}
+	if f := c.AnswFilter; (f != "" && f != "all" && f != "warning" && f != "error") || (f != "" && c.AnswLog == "") {
+		return fmt.Errorf("the answlog filter is all, warning or error (\"\" = not named) and needs answlog")
+	}
 	switch c.Kind {
 	case kindHTTP, kindGRPC:
 		if c.Plain == nil || c.Plain.Entries < 1 {
